@@ -36,21 +36,21 @@ Import ListNotations.
 (* Part A: writer outcomes                                                                                           *)
 (* ================================================================================================================ *)
 (* WShort: the pwrite transferred fewer bytes than the block (a filling disk): parity_write (parity.c) accepts a write only when the
-   count is the whole block (`write_ret != block_size` -> error); the block on disk is then half new.  A short count does not set
-   errno: sync_parity_writer then tests a STALE errno (`stale_eio` = it happens to be EIO, e.g. left by an earlier failed read of
-   the same thread: counted as an I/O error, the run goes on; otherwise TASK_STATE_ERROR, fatal like ENOSPC) *)
-Inductive wres := WOk | WEio | WErr | WShort (stale_eio : bool).
+   count is the whole block (`write_ret != block_size` -> error); the block on disk is then half new.  Since /repo 79689a5
+   parity_write clears errno on entry and sets ENOSPC for a short count, so sync_parity_writer classifies it deterministically as
+   the fatal non-EIO write error (TASK_STATE_ERROR), like ENOSPC (before that fix a stale errno decided) *)
+Inductive wres := WOk | WEio | WErr | WShort.
 
 (* what the system call returns, and how parity_write + sync_parity_writer classify it *)
 Inductive pwret := PwCount (n : N) | PwFail (eio : bool).
-Definition classify_pwrite (bs : N) (stale_eio : bool) (r : pwret) : wres :=
+Definition classify_pwrite (bs : N) (r : pwret) : wres :=
   match r with
-  | PwCount n => if N.eqb n bs then WOk else WShort stale_eio
+  | PwCount n => if N.eqb n bs then WOk else WShort
   | PwFail true => WEio
   | PwFail false => WErr
   end.
-Definition w_is_eio (w : wres) : bool := match w with WEio | WShort true => true | _ => false end.
-Definition w_is_err (w : wres) : bool := match w with WErr | WShort false => true | _ => false end.
+Definition w_is_eio (w : wres) : bool := match w with WEio => true | _ => false end.
+Definition w_is_err (w : wres) : bool := match w with WErr | WShort => true | _ => false end.
 Definition w_failed (w : wres) : bool := match w with WOk => false | _ => true end.
 
 (* --test-io-cache 1 / n >= 3 (IO_MIN) *)
@@ -82,15 +82,15 @@ Definition rep_nonzero (w : wrep) : bool := negb ((wr_eio w + wr_err w =? 0)%nat
 Definition write_levels (par : parity) (pos : nat) (v : list bid) (wl : nat -> wres) : parity :=
   map (fun llv : nat * list penc => match wl (fst llv) with
                                     | WOk => set_ext PNone pos (PEnc v) (snd llv)
-                                    | WShort _ => set_ext PNone pos (PJunk 0) (snd llv)    (* half written *)
+                                    | WShort => set_ext PNone pos (PJunk 0) (snd llv)      (* half written *)
                                     | _ => snd llv end)
       (combine (seq 0 (length par)) par).
 (* one report per failing level: every level has its own writer thread, which reports on its own schedule `lag pos l` *)
 Definition level_reports (m : iomode) (lag : nat -> nat -> nat) (it pos : nat) (wl : nat -> wres) (nl : nat) : list wrep :=
   flat_map (fun l => match wl l with
                      | WOk => []
-                     | WEio | WShort true => [mkWR (report_due m (lag pos l) it) 1 0 pos]
-                     | WErr | WShort false => [mkWR (report_due m (lag pos l) it) 0 1 pos]
+                     | WEio => [mkWR (report_due m (lag pos l) it) 1 0 pos]
+                     | WErr | WShort => [mkWR (report_due m (lag pos l) it) 0 1 pos]
                      end) (seq 0 nl).
 
 (* sync.c `end:` after the repair 1304269: io_stop, then the counters filled since the last io_write_next are drained *)
